@@ -63,6 +63,14 @@ def cases(rng, quick, gr):
     # (4c) extreme but finite magnitudes
     for lit in ["1e-20", "3.5e+15", "2E-30", "1e25", "9.99e-7", "123456789012.5", "1e-300*1e5", "7e150*7e-150"]:
         yield {"tag": "extreme-magnitude", "text": HDR + DECLS + "Op(%s, %s * x, 1 / %s, (%s) ** 2, %s + n) | 0\n" % (lit, lit, lit, lit, lit)}
+    # (4b) left-to-right evaluation with exact integers: integer terms above 2**53 whose exact partial sum is small, followed or
+    #      preceded by a float / complex term (summing all terms at once in floating point loses the integer part)
+    bigs = [2 ** 53 + 1, 2 ** 53 + 3, 2 ** 62 + 1, 4611686018427387905, 9007199254740995, 2 ** 60 + 7]
+    for b in bigs:
+        for d in [1, 2, 5]:
+            for tail in ["0.5", "0.25", "2j", "x", "pi", "1.5e-3"]:
+                yield {"tag": "exact-int-chain", "text": HDR + DECLS + "int big = %d\nint array BG =\n    %d, %d\nOp(%d - %d + %s, big - %d + %s, BG[0] - BG[1] - %s, %s + %d - %d, %d + %d - %d - %s) | 0\n"
+                       % (b, b, b - d, b, b - d, tail, b - d, tail, tail, tail, b, b - d, d, b, b, tail)}
     # (5) row-major indexing with computed indices
     for k in range(6):
         yield {"tag": "index", "text": HDR + DECLS + "Op(A[%d], A[%d+0], A[n-3+%d], F[%d]) | A[%d]\n" % (k, k, k, k % 4, k)}
